@@ -634,7 +634,9 @@ static void run_case(char* line) {
       if (i_am_copy != spawner_is_copy) {
         /* the poller: keeps its loop turning until the other side hangs up */
         char b;
+        int gn;
         close(ping[1]); close(pong[0]);
+        for (gn = 0; gn < 32; gn++) if (gate_open[gn]) close(GATE_W(gn));   /* the gates belong to the other side */
         for (;;) {
           struct pollfd pf[2];
           pf[0].fd = uv_backend_fd(&loop); pf[0].events = POLLIN; pf[0].revents = 0;
